@@ -39,7 +39,7 @@ AST (JSON lists; names are small naturals chosen by the program):
          | ["f", b, n]   (futadd / measfut only) the index is itself an array Future:
                          arr_a.get_future_index(arr_b.get_future_index(n))   -> SFutAddX / SMeasFutX
   x, y = ["int", z] | ["fut", a, ix] | ["reg", r] | ["loop", v]
-  src  = ["int", z] | ["fut", a, ix] | ["loop", v]
+  src  = ["int", z] | ["fut", a, ix] | ["loop", v] | ["reg", r]     (the RegFuture itself is passed to .add)
 Array names are the addresses the builder will hand out (k-th allocated array = k);
 the interpreter asserts this, the Coq lowering checks it.
 """
@@ -121,10 +121,12 @@ class Interp:
             return s[1]
         if s[0] == "fut":
             return self.future(s[1], s[2])
+        if s[0] == "reg":
+            return self.reg[s[1]]
         if s[0] == "loop":
             kind = self.loopv[s[1]]
             if kind[0] == "rf":
-                return kind[1].reg
+                return kind[1]          # the RegFuture handle, as an application passes it
             if kind[0] in ("reg", "both"):
                 return kind[1]
         raise IllFormed(s)
@@ -323,8 +325,11 @@ class Interp:
                 snap["arrays"][a] = _plain(arr[:])
         for (a, i), f in self.fut.items():
             snap["futs"][f"{a},{i}"] = _val(f)
-        for r, rf in self.reg.items():
-            snap["regs"][r] = _val(rf)
+        if not getattr(self, "late_reads", False):
+            # late_reads: an application that looks at its register outcomes only at the end
+            # (every read resolves the handle, so the reading schedule is part of the program)
+            for r, rf in self.reg.items():
+                snap["regs"][r] = _val(rf)
         if self.pipe is not None:
             snap["ctrl_arrays"] = {a: _plain(v) for a, v in self.pipe.arrays().items()}
             snap["ctrl_M"] = ctrl_m_registers(self.pipe)
@@ -409,7 +414,7 @@ class HangError(Exception):
     pass
 
 
-def run_program(repo, prog, script, max_qubits=5, record_active=False, timeout_s=10):
+def run_program(repo, prog, script, max_qubits=5, record_active=False, timeout_s=10, late_reads=False):
     """Run on a fresh in-process pipeline.  Returns the observation dict:
        status 'ok' | 'error'; error -> (top-level statement index, exception class)."""
     from sdk_pipeline import Pipeline
@@ -423,7 +428,8 @@ def run_program(repo, prog, script, max_qubits=5, record_active=False, timeout_s
         actives.append(active_regs(conn))
 
     it = Interp(conn, pipe, on_stmt=on_stmt if record_active else None)
-    obs = dict(status="ok")
+    it.late_reads = late_reads
+    obs = dict(status="ok", late_reads=late_reads)
     import signal
 
     def on_alarm(signum, frame):
@@ -443,6 +449,9 @@ def run_program(repo, prog, script, max_qubits=5, record_active=False, timeout_s
         signal.setitimer(signal.ITIMER_REAL, 0)
         signal.signal(signal.SIGALRM, old)
     obs["protos"] = it.protos
+    if late_reads and it.flushes and obs["status"] == "ok":
+        # register outcomes of ALL blocks are read now, after the last flush
+        it.flushes[-1]["regs"] = {r: _val(rf) for r, rf in it.reg.items()}
     obs["flushes"] = it.flushes
     obs["trace"] = canon_trace(pipe.gate_trace())
     obs["script_left"] = len(pipe.meas_script)
@@ -566,6 +575,8 @@ class Gen:
         ivs = self.index_vars()
         if r < 0.55 and ivs:
             return ["loop", self.rng.choice(ivs)["v"]]
+        if r < 0.75 and (self.regs or self.uregs):
+            return ["reg", self.rng.choice(self.regs + self.uregs)]
         return ["int", self.small()]
 
     def pick_nested(self, must_defined):
@@ -1199,6 +1210,8 @@ def coq_src(x):
         return f"(AInt {cz(x[1])})"
     if x[0] == "fut":
         return f"(AFut {x[1]} {coq_ix(x[2])})"
+    if x[0] == "reg":
+        return f"(AReg {x[1]})"
     return f"(ALoop {x[1]})"
 
 
